@@ -1665,6 +1665,11 @@ class Interp:
             return SliceRef(before.root, before.path, s, e, before.mut)
         if isinstance(before, Stream) and isinstance(after, Stream):
             return self.havoc_stream(before, after, name)
+        if isinstance(before, Ref) and isinstance(after, Ref) and before.root == after.root and before.mut == after.mut and \
+                len(before.path) == len(after.path) and before.path and before.path[:-1] == after.path[:-1] and \
+                before.path[-1][0] in ('i', 'e') and after.path[-1][0] in ('i', 'e'):
+            # a reference that moves from one element of a sequence to another: the same sequence, some position
+            return Ref(before.root, before.path[:-1] + (('e', self.fresh_sym(name + '.idx')),), before.mut)
         if isinstance(v, tuple):
             return self.fresh_sym(name)
         if isinstance(v, (SeqSym, SeqLit, SeqUpd, SeqPush, SeqMap, SeqScan, SeqCollect)):
